@@ -19,3 +19,5 @@ def run(ctx):
     from ..kani import kani_family
     kani_family(ctx, 'value.usize', 'From<usize> / TryFrom<NumberValue> for usize are exact (no detour through floating point)',
                 [('k_usize_roundtrip', 'usize-roundtrip', 'usize <-> NumberValue'), ('k_integer_eq_exact', 'int-eq-exact', 'equality and hashing of integers is exact over all u64 / i64 (no detour through f64)')], ['json_value.rs'], timeout_s=600)
+    from ..scen_print import print_numbers
+    print_numbers(ctx)        # printing hands the integer to Display unchanged, in json, text and csv output
